@@ -1,12 +1,14 @@
 CONSTANTS
   MaxUI = 2
-  Kinds = {"finite", "endless"}
+  Kinds = {"finite", "endless", "closed"}
   ShowBumpsVersion = TRUE
   TemplateHasQ = TRUE
   H = 2
   LensKind = "one"
   WithReload = TRUE
   ReloadBumpsVersion = TRUE
+  WithHideKeep = TRUE
+  Follow = FALSE
   WithScroll = FALSE
   DelayedSetsVersion <- TreeDelayedSetsVersion
 SPECIFICATION Spec
